@@ -46,6 +46,13 @@ def write_evidence(rep, mod, wall, code):
         "exit_code": code,
     }
     cov.update(rep.extra)
+    if any(k in rep.extra for k in ("discharged_by_interval_enclosure", "discharged_by_interval_branch_and_bound",
+                                    "branches_decided_by_intervals")):
+        cov["technique"] += ("; inequalities that hold with a margin on the whole box of the symbols are discharged (and "
+                             "branch sides refuted) by sound interval enclosure / interval branch-and-bound with "
+                             "outward rounding before z3 is asked - counts in discharged_by_interval_* and "
+                             "branches_decided_by_intervals; equalities, everything the intervals do not settle and all "
+                             "counterexamples come from z3")
     ev = {
         "property_id": rep.pid,
         "tier": rep.tier,
